@@ -422,6 +422,15 @@ pub struct QPat {
     pub g: GPat,
 }
 impl QPat {
+    /// the pattern made of four constants selecting exactly `q`
+    pub fn exact(q: &MQ) -> QPat {
+        QPat {
+            s: TPat::One(q.s.clone()),
+            p: TPat::One(q.p.clone()),
+            o: TPat::One(q.o.clone()),
+            g: GPat::One(q.g.clone()),
+        }
+    }
     pub fn matches(&self, q: &MQ) -> bool {
         self.s.matches(&q.s) && self.p.matches(&q.p) && self.o.matches(&q.o) && self.g.matches(q.g.as_ref())
     }
